@@ -10,7 +10,7 @@ import (
 )
 
 var voteVariants = []string{"flip", "wrongkey", "crosskind", "otherround", "othertarget", "zerosig", "emptysig", "idrange", "idN", "idmax", "idlen0", "idlen1", "idlen3", "badpkh", "oldset", "mix", "dupid", "emptymap"}
-var phVariants = []string{"forgedNext", "forgedCur", "badhash", "nonval", "badsig", "nokey", "badpcp", "shortpcp", "foreignpcp", "duppcp", "emptypcp", "pcpidN", "pcpidlen1"}
+var phVariants = []string{"forgedNext", "forgedCur", "forgedNextPK", "forgedCurPK", "badhash", "nonval", "badsig", "nokey", "badpcp", "shortpcp", "foreignpcp", "duppcp", "emptypcp", "pcpidN", "pcpidlen1"}
 var replayVariants = []string{"ok", "lowpower", "byzonly", "nextround", "prevH", "nextH", "badhash", "badprev", "foreign", "blockB", "nosigs", "pvsigs"}
 
 // alphabet lists the environment events. "full" is used for single deviations, "core" where the space is squared or cubed.
@@ -69,7 +69,7 @@ func alphabet(level string) []string {
 		}
 	}
 	for _, v := range phVariants {
-		if level == "core" && !(v == "forgedNext" || v == "badsig") {
+		if level == "core" && !(v == "forgedNext" || v == "forgedNextPK" || v == "badsig") {
 			continue
 		}
 		add("PH:A:" + v)
@@ -351,7 +351,7 @@ func nodeAlphabet(level string) []string {
 				add(fmt.Sprintf("V:%s:3:A:%s", k, v))
 			}
 		}
-		for _, v := range []string{"forgedNext", "forgedCur", "badsig", "nokey", "badpcp"} {
+		for _, v := range []string{"forgedNext", "forgedCur", "forgedNextPK", "forgedCurPK", "badsig", "nokey", "badpcp"} {
 			add("PH:A:" + v)
 		}
 		for _, v := range replayVariants {
